@@ -157,6 +157,70 @@ func checkC06(c *Ctx, r *Report) {
 	tagNameRule(c, r)
 	accessorTightRule(c, r)
 	fieldEnumerationRule(c, r)
+	specialStructRule(c, r)
+}
+
+// specialStructRule (R06k): a struct type with a primitive encoding (regexp.Regexp: written as its text) is read back
+// from a string. Wherever the unpack path demands an object for a struct-kinded target — "required 'object', but found
+// 'string'" — the special struct types were excluded first (or the branch falls back to reifyPrimitive, which knows
+// them). reifyValue and reifyMergeValue are siblings here: a fresh target and a pre-filled one take the same values.
+func specialStructRule(c *Ctx, r *Report) {
+	r.Rule("R06k", "reifyValue and reifyMergeValue demand an object for a struct-kinded target only after the struct types with a primitive encoding (tRegexp) were excluded", 1)
+	kt, kinds := reflectKind(c)
+	reo := c.Func("", "raiseExpectedObject")
+	n := 0
+	for _, fname := range []string{"reifyValue", "reifyMergeValue"} {
+		fn := c.Func("", fname)
+		ds := findDispatches(fn, kt)
+		for _, ci := range CallsTo(fn, reo, false) {
+			blk := ci.(ssa.Instruction).Block()
+			structOnly := false
+			for _, d := range ds {
+				if shortCircuitDispatch(fn, d, kt) || !(d.Head == blk || d.Head.Dominates(blk)) {
+					continue
+				}
+				reach := kindsReaching(d, kt, kinds, blk)
+				if len(reach) <= 3 && reach[25] && !reach[21] {
+					structOnly = true // Struct (25) gets here, Map (21) does not
+				}
+			}
+			// the other spelling of the struct case: `if baseType.Kind() == reflect.Struct { … }`
+			for _, cd := range DomConds(blk) {
+				if _, k, ok := enumTest(cd.V, kt); ok && k == 25 {
+					if bo := cd.V.(*ssa.BinOp); (bo.Op == token.EQL) == cd.Truth {
+						structOnly = true
+					}
+				}
+			}
+			if !structOnly {
+				continue
+			}
+			n++
+			excluded := false
+			for _, cd := range ExpandConds(DomConds(blk)) {
+				// the Config types (convertible to Config) are objects by definition
+				if cc, isCall := cd.V.(*ssa.Call); isCall && cd.Truth && calledName(cc) == "ConvertibleTo" {
+					excluded = true
+				}
+				bo, ok := cd.V.(*ssa.BinOp)
+				if !ok || !(bo.Op == token.EQL && !cd.Truth || bo.Op == token.NEQ && cd.Truth) {
+					continue
+				}
+				for _, side := range []ssa.Value{bo.X, bo.Y} {
+					if l, isL := side.(*ssa.UnOp); isL {
+						if g, isG := l.X.(*ssa.Global); isG && g.Name() == "tRegexp" {
+							excluded = true
+						}
+					}
+				}
+			}
+			r.Check(excluded, "R06k", c.FnName(fn), "object demanded after the special structs", c.Pos(ci.Pos()), "under baseType != tRegexp",
+				"an object is demanded for a struct-kinded target without excluding the struct types that are written as text: a pre-filled *regexp.Regexp (or a []regexp.Regexp element in place) cannot be overwritten — \"required 'object', but found 'string'\" — while the same field left nil unpacks")
+		}
+	}
+	if n == 0 {
+		r.Trivial("R06k", "ucfg", "object demanded after the special structs", "-", "no struct-only demand for an object (the struct cases fall back to reifyPrimitive)")
+	}
 }
 
 // fieldEnumerationRule (R06j): the writer (normalizeStructInto) and the readers (reifyStruct, validateStruct, through
